@@ -764,8 +764,10 @@ def cpu_number_marker(ops, verdict):
         return ""
     key = "cpu.number".encode().hex()
     last_open = max([k for k, o in enumerate(ops) if o.startswith("O:")] or [-1])
+    # the key may be written with a leading dot (path relative to the root)
     vals = [o.split(":")[4] for o in ops[:last_open + 1]
-            if o.startswith("S:") and len(o.split(":")) >= 5 and o.split(":")[2] == key and o.split(":")[3] == "n"]
+            if o.startswith("S:") and len(o.split(":")) >= 5 and o.split(":")[2] in (key, "2e" + key)
+            and o.split(":")[3] == "n"]
     if not vals:
         return ""
     try:
